@@ -303,7 +303,17 @@ fn complete_option(
                             comp.add_prefix(format!("-{leading_flags}{sep}"))
                         }),
                 );
-            } else {
+            } else if arg.to_value().is_ok()
+                && leading_flags.chars().all(|c| {
+                    cmd.get_arguments().any(|a| {
+                        a.get_short_and_visible_aliases()
+                            .map(|v| v.contains(&c))
+                            .unwrap_or(false)
+                    })
+                })
+            {
+                // Only continue a cluster the parser would accept: every flag so far is known and
+                // there is no invalid (non-UTF-8) remainder
                 completions.extend(
                     shorts_and_visible_aliases(cmd)
                         .into_iter()
